@@ -370,22 +370,11 @@ func finalizePipeFrom(p *PipePlan, init model.TplCache) []model.TplCache {
 // the template in force at that point (cache + the message's own earlier
 // announcements), then applies mutations.
 func encodeFlowInOrder(d *Delivery, addr []byte, cache model.TplCache) []byte {
-	local := cache
-	// pre-scan: build per-set resolution
-	res := map[uint16]*model.Template{}
-	for si := range d.Abs.Sets {
-		s := &d.Abs.Sets[si]
-		if s.Kind == model.SetTemplate || s.Kind == model.SetOptions {
-			for ti := range s.Tpls {
-				res[s.Tpls[ti].ID] = &s.Tpls[ti]
-			}
-		}
-	}
+	// Msg.Encode resolves a data set against the templates announced earlier
+	// in the same message, in order; what it does not find there comes from
+	// the cache of completed phases
 	b, _ := d.Abs.Encode(func(id uint16) *model.Template {
-		if t, ok := res[id]; ok {
-			return t
-		}
-		return local[model.CacheKey(addr, id)]
+		return cache[model.CacheKey(addr, id)]
 	})
 	for _, m := range d.Mut {
 		b = applyMutation(b, m)
